@@ -136,6 +136,8 @@ def model_check(rep, kind, obs_list, oroot, newv, partial=False):
                     continue
                 fseen.append(rel)
                 order.append(c)
+            elif c == "LIST-root" and order and order[-1] == "LIST-root":
+                continue          # further pages of the same listing
             else:
                 order.append(c)
         rep.count("script-compared")
